@@ -58,6 +58,16 @@ class C10(CurveCheck):
         for _ in range(30 if q else 500):
             cs.append(Case("derive %s %s" % (hx(le(rng.randrange(L))), hx(ed.compress(rand_point(rng)))),
                            "derive:prime-order"))
+        # structured scalars (limb patterns) and keys whose y is next to the field prime or next to zero
+        XY = ed.extreme_y_points()
+        SS = ed.structured_scalars(rng)
+        for k, a in enumerate(SS if not q else SS[::3]):
+            cs.append(Case("derive %s %s" % (hx(le(a)), hx(ed.compress(rand_point(rng)) if k % 3 else XY[k % len(XY)])), "derive:structured-scalar"))
+        for k, B_ in enumerate(XY):
+            for a in (1, 8, rng.randrange(L), SS[(7 * k) % len(SS)]):
+                cs.append(Case("derive %s %s" % (hx(le(a)), hx(B_)), "derive:extreme-y-key"))
+            cs.append(Case("onetime %s %s %s %d" % (hx(XY[(k + 1) % len(XY)]), hx(le(rng.randrange(1, L))), hx(B_), k), "onetime:extreme-y-key"))
+            cs.append(Case("sendrecv %s %s %s %d" % (hx(le(rng.randrange(1, L))), hx(le(rng.randrange(1, L))), hx(B_), k), "sendrecv:extreme-y-key"))
         # rejected operands
         cs.append(Case("derive %s %s" % (hx(le(L)), hx(G)), "derive:rejected"))
         cs.append(Case("derive %s %s" % (ONE, hx(le(1 | (1 << 255)))), "derive:rejected"))
